@@ -218,7 +218,8 @@ func parseApp(s string) (App, bool) {
 		}
 	}
 	if n == 3 {
-		if f != 0 && f != 2 {
+		// fault 6 (phase 2 fails) needs a listener: a server without one manages no certificate
+		if f != 0 && f != 2 && !(f == 6 && len(l) > 0) {
 			return App{}, false
 		}
 	} else if f > 5 || f == 1 {
@@ -354,7 +355,8 @@ func parseOp(s string) (Op, bool) {
 	case len(p) == 3 && p[0] == "P":
 		a, ok1 := parseApp(p[1])
 		e, ok2 := parseEnv(p[2])
-		return Op{Kind: 'P', App: a, Env: e}, ok1 && ok2
+		// the phase-2 fault needs the tls/pki apps of a whole configuration next to the HTTP app
+		return Op{Kind: 'P', App: a, Env: e}, ok1 && ok2 && a.Fault != 6
 	case len(p) == 3 && p[0] == "D":
 		n, ok1 := atoi(p[1])
 		e, ok2 := parseEnv(p[2])
